@@ -115,10 +115,31 @@ Section General.
     - rewrite Nat.add_comm, Nat.mod_add by lia. apply Nat.mod_small. lia.
   Qed.
 
+  Lemma div_mod_block2 dim k i : i < dim -> (k * dim + i) / dim = k /\ (k * dim + i) mod dim = i.
+  Proof. intros Hi. apply div_mod_block. exact Hi. Qed.
+
   Theorem tp_proj_spec n (choi : @mat K) i j : i < 2 ^ n -> j < 2 ^ n ->
     partial_trace o (2 ^ n) (tp_proj o n choi) i j = mid o i j.
   Proof.
     intros Hi Hj. unfold partial_trace, tp_proj.
+    rewrite (sumn_ext _ _ (fun k => choi (k * 2 ^ n + i)%nat (k * 2 ^ n + j)%nat -
+       (sumn (2 ^ n) (fun k0 => choi (k0 * 2 ^ n + i)%nat (k0 * 2 ^ n + j)%nat) - mid o i j) * kinv o (pow2 o n))).
+    - rewrite sumn_sub, sumn_const.
+      rewrite kinv_pow2.
+      transitivity (sumn (2 ^ n) (fun k => choi (k * 2 ^ n + i)%nat (k * 2 ^ n + j)%nat) -
+                    (pow2 o n * hpow n) * (sumn (2 ^ n) (fun k0 => choi (k0 * 2 ^ n + i)%nat (k0 * 2 ^ n + j)%nat) - mid o i j));
+        [ring|]. rewrite pow2_hpow. ring.
+    - intros k Hk. unfold kron.
+      destruct (div_mod_block2 (2 ^ n) k i Hi) as [E1 E2]. destruct (div_mod_block2 (2 ^ n) k j Hj) as [E3 E4].
+      rewrite E1, E2, E3, E4. unfold partial_trace.
+      replace (mid o k k) with one by (unfold mid; rewrite Nat.eqb_refl; reflexivity). ring.
+  Qed.
+
+  (* the pinned projection made the partial trace over the INPUT factor the identity (unitality) *)
+  Theorem tp_proj_pinned_spec n (choi : @mat K) i j : i < 2 ^ n -> j < 2 ^ n ->
+    partial_trace_pinned o (2 ^ n) (tp_proj_pinned o n choi) i j = mid o i j.
+  Proof.
+    intros Hi Hj. unfold partial_trace_pinned, tp_proj_pinned.
     rewrite (sumn_ext _ _ (fun k => choi (i * 2 ^ n + k)%nat (j * 2 ^ n + k)%nat -
        (sumn (2 ^ n) (fun k0 => choi (i * 2 ^ n + k0)%nat (j * 2 ^ n + k0)%nat) - mid o i j) * kinv o (pow2 o n))).
     - rewrite sumn_sub, sumn_const.
@@ -128,8 +149,19 @@ Section General.
         [ring|]. rewrite pow2_hpow. ring.
     - intros k Hk. unfold kron.
       destruct (div_mod_block (2 ^ n) i k Hk) as [E1 E2]. destruct (div_mod_block (2 ^ n) j k Hk) as [E3 E4].
-      rewrite E1, E2, E3, E4. unfold partial_trace.
+      rewrite E1, E2, E3, E4. unfold partial_trace_pinned.
       replace (mid o k k) with one by (unfold mid; rewrite Nat.eqb_refl; reflexivity). ring.
+  Qed.
+
+  (* which factor is the right one: the partial trace over the OUTPUT factor of the reference Choi matrix
+     of any matrix V is the (transposed, conjugated) Gram matrix of V's columns, hence the identity for
+     every V with V^dagger V = 1 - the reference is a fixed point of the repaired projection's constraint *)
+  Theorem choi_from_unitary_partial_trace d (V : @mat K) i j : i < d -> j < d ->
+    partial_trace o d (choi_from_unitary o d V) i j = sumn d (fun k => V k i * conj (V k j)).
+  Proof.
+    intros Hi Hj. unfold partial_trace, choi_from_unitary, vec. apply sumn_ext. intros k Hk.
+    destruct (div_mod_block2 d k i Hi) as [E1 E2]. destruct (div_mod_block2 d k j Hj) as [E3 E4].
+    rewrite E1, E2, E3, E4. reflexivity.
   Qed.
 End General.
 
